@@ -116,10 +116,15 @@ package peer
 // ---- C12: public-key encryption is total (no panic for any key, context, message or ciphertext) ----
 // Wire format (doc comment of EncryptToEd25519): the AEAD is sealed/opened with the 24-byte
 // message nonce and, as associated data, the 32 transmitted Ed25519 message-key bytes.
+// Lengths: a ciphertext is 4 nonce bytes, the 32 wrapped key bytes, the compressed message (never
+// empty) and the 16-byte tag; the decryptor's length guard never turns such a ciphertext away (so
+// the round trip of the statement is not cut short for small messages, the empty one included).
 //@ func EncryptToEd25519
 //@   assert at call invoke.Seal: same(arg3, msgPubKey) && same(arg1, msgNonce) && same(arg0, prefix)
+//@   ensures ret1 == nil ==> len(ret0) >= 53
 //@ func DecryptWithEd25519
 //@   fresh ret0
+//@   assert at exit: len(tPrivKey) == 64 && len(ciphertext) >= 53 ==> called(NewDeriveKey)
 //@   assert at call invoke.Open: len(arg3) == 32 && same(arg1, msgNonce) && content(arg2) == ciphertext[36..]
 //@   assert at call invoke.Open: forall i int :: 0 <= i && i < 32 ==> arg3[i] == msgPubKey[i]
 //@ func EncryptToPubKey
